@@ -94,9 +94,9 @@ def run(ctx):
             else:
                 sites.append((F.root_of[b.id], b, bi, s))
             for (root, cb, cbi, ids) in sites:
+                n_some += 1
                 if only_none(ids):
                     continue
-                n_some += 1
                 rf = req_fields(ids)
                 desc = ",".join("%s.%s" % (a.split("::")[-1], f) for a, f in rf) or "?"
                 ups = []
@@ -113,7 +113,7 @@ def run(ctx):
                           "led term 5. (The correct (B,6) only follows when the replayed request is handled as follower.)" % (v, desc),
                           loc(cb, cbi))
     ctx.floor("C31-a", n_prod, 5, "constructions of relayed InternalEvent variants (%s)" % ",".join(sorted(relay)))
-    ctx.floor("C31-a", n_some, 2, "producers passing Some(leader id)")
+    ctx.floor("C31-a", n_some, 5, "producer sites examined (non-None constructions + call sites of id-forwarding helpers)")
 
     # ---------------------------------------------------------------- C31-b producers of NoopCommitted
     noops = [x for x in all_agg_sites(F, "InternalEvent", "NoopCommitted", crates=("d_engine_core", "d_engine_server")) if "test" not in x[0].id]
